@@ -59,7 +59,9 @@ func pct(p int) pool { return newPool("y", p, "n", 100-p) }
 
 var (
 	poolOp       = newPool("subscription", 50, "query", 38, "mutation", 12)
-	poolSubEnd   = newPool("hold", 55, "ok", 15, "error", 30)
+	poolSubEnd   = newPool("hold", 62, "ok", 15, "error", 23)
+	poolRelOff   = newPool("0", 3, "1", 4, "2", 4, "3", 3, "4", 2, "5", 2, "7", 1, "11", 1)
+	poolMinLen   = newPool("1", 3, "4", 3, "7", 3, "10", 2).first("1")
 	poolQEnd     = newPool("ok", 75, "error", 25)
 	poolOnCancel = newPool("ignore", 40, "return", 35, "error", 25)
 	poolN        = newPool("1", 30, "2", 30, "0", 20, "3", 20)
@@ -107,27 +109,62 @@ func gcd(a, b int) int {
 	return a
 }
 
-func genScript(t *rapid.T, i, k int) *Script {
-	sc := &Script{Op: poolOp.draw(t, "op"), Gate: -1, Rel: -1}
-	if sc.Op == "subscription" {
-		sc.N = atoi(poolN.draw(t, "n"))
-		sc.End = poolSubEnd.draw(t, "end")
-		if pct35.draw(t, "gated") == "y" {
-			sc.Gate = uniform(t, "gate", 0, sc.N)
+// raw is one drawn element of a sequence before it is placed: everything positional (the
+// release point, which pool the kind comes from, the aimed id of a complete) is resolved
+// afterwards, so that rapid can shrink by deleting elements of the slice.
+type raw struct {
+	Inner, Last string // kind if the element is an inner / the last one
+	ID          string
+	V           int
+	BadSub      int // 0 usable payload
+	Rich        bool
+	X           Script
+	RelOff      int // release after message (own index + RelOff), capped to the last index
+	Released    bool
+	Aimed       bool
+	Aim         int
+	Promote     bool // a complete drawn while nothing is live becomes a subscribe
+}
+
+func genRaw(proto string) *rapid.Generator[raw] {
+	return rapid.Custom(func(t *rapid.T) raw {
+		var r raw
+		if proto == protoGWS {
+			r.Inner = poolInnerGWS.draw(t, "kind")
+		} else {
+			r.Inner = poolInner.draw(t, "kind")
 		}
-	} else {
-		sc.End = poolQEnd.draw(t, "end")
-		if pct40.draw(t, "gated") == "y" {
-			sc.Gate = 0
+		r.Last = poolLast.draw(t, "lastkind")
+		r.ID = poolID.draw(t, "id")
+		r.V = uniform(t, "v", 0, 11)
+		if pct7.draw(t, "badpayload") == "y" {
+			r.BadSub = atoi(poolBadSub.draw(t, "subv"))
 		}
-	}
-	if sc.Gate >= 0 {
-		sc.OnCancel = poolOnCancel.draw(t, "oncancel")
-		if pct85.draw(t, "released") == "y" {
-			sc.Rel = uniform(t, "rel", i, k-1)
+		r.Rich = pct10.draw(t, "rich") == "y"
+		x := Script{Op: poolOp.draw(t, "op"), Gate: -1, Rel: -1}
+		if x.Op == "subscription" {
+			x.N = atoi(poolN.draw(t, "n"))
+			x.End = poolSubEnd.draw(t, "end")
+			if pct35.draw(t, "gated") == "y" {
+				x.Gate = uniform(t, "gate", 0, x.N)
+			}
+		} else {
+			x.End = poolQEnd.draw(t, "end")
+			if pct40.draw(t, "gated") == "y" {
+				x.Gate = 0
+			}
 		}
-	}
-	return sc
+		if x.Gate >= 0 {
+			x.OnCancel = poolOnCancel.draw(t, "oncancel")
+			r.Released = pct85.draw(t, "released") == "y"
+			r.RelOff = atoi(poolRelOff.draw(t, "reloff"))
+		}
+		r.X = x
+		r.Aimed = pct75.draw(t, "aimed") == "y"
+		r.Aim = uniform(t, "aim", 0, 2)
+		r.Promote = pct70.draw(t, "promote") == "y"
+		return r
+	})
 }
 
 // genSeq generates a client sequence (k <= 12) with executor scripts for one protocol. A
@@ -135,52 +172,63 @@ func genScript(t *rapid.T, i, k int) *Script {
 // interesting (most sequences start with an accepted init; closing messages are rare except
 // in the last position) and towards completes of live ids.
 func genSeq(proto string) func(t *rapid.T) Case {
+	g := genRaw(proto)
+	lead := pct(80)
+	if proto == protoGWS {
+		lead = pct(60)
+	}
 	return func(t *rapid.T) Case {
-		k := atoi(poolLen.draw(t, "k"))
 		c := Case{Proto: proto}
+		if lead.draw(t, "leadInit") == "y" {
+			c.Msgs = append(c.Msgs, Msg{K: "init", V: atoi(poolInitOK.draw(t, "initv"))})
+		}
+		minLen := atoi(poolMinLen.draw(t, "minlen"))
+		raws := rapid.SliceOfN(g, minLen, 12-len(c.Msgs)).Draw(t, "msgs")
+		k := len(c.Msgs) + len(raws)
 		live := map[string]bool{}
-		for i := 0; i < k; i++ {
-			if i == 0 && pct70.draw(t, "leadInit") == "y" {
-				c.Msgs = append(c.Msgs, Msg{K: "init", V: atoi(poolInitOK.draw(t, "initv"))})
-				continue
+		for _, r := range raws {
+			i := len(c.Msgs)
+			kind := r.Inner
+			if i == k-1 {
+				kind = r.Last
 			}
-			var kind string
-			switch {
-			case i == k-1:
-				kind = poolLast.draw(t, "kind")
-			case proto == protoGWS:
-				kind = poolInnerGWS.draw(t, "kind")
-			default:
-				kind = poolInner.draw(t, "kind")
+			var liveIDs []string
+			for _, id := range ids {
+				if live[id] {
+					liveIDs = append(liveIDs, id)
+				}
+			}
+			if kind == "complete" && len(liveIDs) == 0 && r.Promote {
+				kind = "sub"
 			}
 			m := Msg{K: kind}
 			switch kind {
 			case "init":
-				m.V = atoi(poolInitAny.draw(t, "initv"))
+				m.V = atoi(pick([]string{"0", "3", "0", "3", "1", "2", "0", "3"}, r.V))
 			case "sub":
-				m.ID = poolID.draw(t, "id")
-				if pct7.draw(t, "badpayload") == "y" {
-					m.V = atoi(poolBadSub.draw(t, "subv"))
-				} else if pct10.draw(t, "rich") == "y" {
+				m.ID = r.ID
+				m.V = r.BadSub
+				if m.V == 0 && r.Rich {
 					m.V = 5
 				}
 				if subPayloadValid(m.V) && m.V != 4 {
-					m.X = genScript(t, i, k)
+					x := r.X
+					if x.Gate >= 0 && r.Released {
+						x.Rel = i + r.RelOff
+						if x.Rel > k-1 {
+							x.Rel = k - 1
+						}
+					}
+					m.X = &x
 					if !live[m.ID] {
-						live[m.ID] = m.X.Op == "subscription" || m.X.Gate >= 0
+						live[m.ID] = x.Op == "subscription" || x.Gate >= 0
 					}
 				}
 			case "complete":
-				var liveIDs []string
-				for _, id := range ids {
-					if live[id] {
-						liveIDs = append(liveIDs, id)
-					}
-				}
-				if len(liveIDs) > 0 && pct75.draw(t, "aimed") == "y" {
-					m.ID = rapid.SampledFrom(liveIDs).Draw(t, "id")
+				if len(liveIDs) > 0 && r.Aimed {
+					m.ID = liveIDs[r.Aim%len(liveIDs)]
 				} else {
-					m.ID = poolID.draw(t, "id")
+					m.ID = r.ID
 				}
 				live[m.ID] = false
 			case "terminate":
@@ -188,7 +236,7 @@ func genSeq(proto string) func(t *rapid.T) Case {
 					live = map[string]bool{}
 				}
 			case "ping", "unknown", "nonjson", "shape", "srvtype":
-				m.V = uniform(t, "v", 0, 11)
+				m.V = r.V
 			}
 			c.Msgs = append(c.Msgs, m)
 		}
